@@ -1012,13 +1012,22 @@ func (g *goLayouts) readSummary(fn *types.Func) *readHelper {
 	hasBuf := false
 	// a method of a cursor type: a struct that carries the record buffer (or the stream) in a field
 	if fd.Recv != nil && len(fd.Recv.List) == 1 {
-		if _, st := structOf(g.info.TypeOf(fd.Recv.List[0].Type)); st != nil {
+		// (a cursor: a small struct of the buffer and positions - not the lexer, reader or writer themselves)
+		if _, st := structOf(g.info.TypeOf(fd.Recv.List[0].Type)); st != nil && st.NumFields() <= 4 {
+			small := true
 			for i := 0; i < st.NumFields(); i++ {
 				ft := st.Field(i).Type()
 				if isByteSliceType(ft) || types.TypeString(ft, nil) == "io.Reader" {
 					hasBuf = true
+					continue
+				}
+				if b, ok := ft.Underlying().(*types.Basic); !ok || b.Info()&(types.IsInteger|types.IsString|types.IsBoolean) == 0 {
+					if !isErrorType(ft) {
+						small = false
+					}
 				}
 			}
+			hasBuf = hasBuf && small
 		}
 		if !hasBuf {
 			return s
